@@ -62,10 +62,13 @@ namespace cnl {
                 std::declval<elastic_tag<LhsDigits, LhsNarrowest>>(),
                 std::declval<elastic_tag<RhsDigits, RhsNarrowest>>()));
         using result_rep = typename result_tag::rep;
+        // the result of / and % can have fewer digits than an operand; operate in a type which holds both operands
+        using operand_rep = set_digits_t<
+                result_rep, std::max({digits_v<result_rep>, LhsDigits, RhsDigits})>;
 
         [[nodiscard]] constexpr auto operator()(Lhs const& lhs, Rhs const& rhs) const
         {
-            return Operator()(static_cast<result_rep>(lhs), static_cast<result_rep>(rhs));
+            return Operator()(static_cast<operand_rep>(lhs), static_cast<operand_rep>(rhs));
         }
     };
 
